@@ -450,7 +450,7 @@ var noWait = func() context.Context {
 
 // readAll simulates a subscriber that starts at offset start (inclusive) and keeps asking for
 // the next batches until it has caught up with the last applied request. Never blocks: the
-// tracker is only asked for offsets <= last.
+// tracker is only asked for offsets <= the last applied request (and with a cancelled context).
 func (in *inst) readAll(d kv.DB, start int64) ([]*proto.NotificationBatch, error) {
 	var out []*proto.NotificationBatch
 	next := start
@@ -474,7 +474,7 @@ func (in *inst) readAll(d kv.DB, start int64) ([]*proto.NotificationBatch, error
 
 func (in *inst) expired(i int64) bool { return in.ts[i] <= in.now-retentionMs }
 
-// subscribers checks the streams returned from every start offset on the primary and on the replica.
+// subscribers checks the streams returned from every start offset on the primary and on the replica(s).
 func (in *inst) subscribers() *ev.Violation {
 	last := in.lastOK() // a start offset beyond it would (rightly) wait for the next applied request
 	for o := int64(0); o <= last; o++ {
@@ -921,6 +921,22 @@ func refusalKind(err error) string {
 	return "?"
 }
 
+func refusalSlug(err error) string {
+	switch {
+	case errors.Is(err, kv.ErrMissingPartitionKey):
+		return "missing_partition_key"
+	case errors.Is(err, kv.ErrMissingSequenceDeltas):
+		return "missing_sequence_deltas"
+	case errors.Is(err, kv.ErrSequenceDeltaIsZero):
+		return "zero_first_delta"
+	case errors.Is(err, kv.ErrInvalidSequenceKey):
+		return "invalid_existing_sequence_key"
+	case errors.Is(err, kv.ErrSequenceOverflow):
+		return "sequence_overflow"
+	}
+	return "other"
+}
+
 // outcome compares what ProcessWrite answered with what the model expects (want = nil: applied,
 // else the sentinel of the refusal).
 func outcome(st *store, what string, off int64, err, want error) *ev.Violation {
@@ -1037,7 +1053,7 @@ func (in *inst) step(op int) (bool, *ev.Violation) {
 		for _, p := range w.Puts[:e.processed] {
 			in.leftover[p.Key] = true
 		}
-		c, _ := nRefusedKind.LoadOrStore(refusalKind(want), &atomic.Int64{})
+		c, _ := nRefusedKind.LoadOrStore(refusalSlug(want), &atomic.Int64{})
 		c.(*atomic.Int64).Add(1)
 		return true, in.oracles(true)
 	}
@@ -1129,8 +1145,9 @@ func (in *inst) trimStep(mode int) (bool, *ev.Violation) {
 			return true, viol("trim-error", err.Error())
 		}
 		nTrimGap.Add(1)
+	} else {
+		in.everTrim = true
 	}
-	in.everTrim = true
 	nTrims.Add(1)
 	bs, err := in.readAll(in.db, 0)
 	if err != nil {
@@ -1260,7 +1277,7 @@ func main() {
 	run.Add("refused_requests", nRefused.Load())
 	run.Add("refused_requests_after_processed_operations", nRefusedAfterOps.Load())
 	nRefusedKind.Range(func(k, v any) bool {
-		run.Add("refused["+strings.TrimPrefix(k.(string), "oxia: ")+"]", v.(*atomic.Int64).Load())
+		run.Add("refused_requests_"+k.(string), v.(*atomic.Int64).Load())
 		return true
 	})
 	run.Add("applied_requests_after_a_refused_one", nWritesAfterRefused.Load())
